@@ -263,7 +263,7 @@ func init() {
 
 	issue.Hard(CannotBeParsed, `Unable to parse Timespan '%{str}' using any of the formats %{formats}`)
 
-	issue.Hard(TimespanFormatSpecNotHigher, `Format specifiers %L and %N denotes fractions and must be used together with a specifier of higher magnitude`)
+	issue.Hard(TimespanFormatSpecNotHigher, `Format specifiers %%L and %%N denotes fractions and must be used together with a specifier of higher magnitude`)
 
 	issue.Hard(TimestampCannotBeParsed, `Unable to parse Timestamp '%{str}' using any of the formats %{formats}`)
 
